@@ -1,6 +1,6 @@
 (* C10 — obligations re-decided by the kernel for the tables generated from the repository on this run. *)
 From Coq Require Import ZArith List Bool.
-From S2T Require Import Lib.PyStr C10.Model C10.Spec C10.Corr Gen.C10Tables.
+From S2T Require Import Lib.PyStr C10.Model C10.Spec C10.Proofs C10.Corr Gen.C10Tables.
 Import ListNotations.
 Open Scope N_scope.
 
@@ -27,16 +27,31 @@ Theorem C10_coder_ids :
 Proof. repeat split; vm_compute; reflexivity. Qed.
 Print Assumptions C10_coder_ids.
 
-(* REFUTED with today's table (open finding tar-magic-shadowed-by-first-member-name): a plain TAR whose first
-   member is called "BZ..." has ustar at 257 but is typed tar.bz2 *)
+(* REFUTED for the original detection order (signatures first): a plain TAR whose first member is called "BZ..."
+   has ustar at 257 but was typed tar.bz2; the repaired code types it tar as soon as tarfile accepts its header *)
 Definition tar_named (name : bytes) : bytes := name ++ repeat 0 (257 - List.length name)%nat ++ s "ustar" ++ repeat 0 250.
 Theorem C10_detect_tar_shadowed_refuted :
-  exists file, ustar_at T file = true /\ detect T file <> Some (s "tar").
-Proof. exists (tar_named (s "BZ_report.txt")). split; [vm_compute; reflexivity|]. vm_compute. intro H. discriminate H. Qed.
+  exists file, ustar_at T file = true /\ detect_old T file <> Some (s "tar")
+               /\ forall ok, ok (takeN 512 file) = true -> detect T ok file = Some (s "tar").
+Proof.
+  exists (tar_named (s "BZ_report.txt")). split; [vm_compute; reflexivity|]. split.
+  - vm_compute. intro H. discriminate H.
+  - intros ok H. apply C10.Proofs.detect_tar; [vm_compute; reflexivity | exact H].
+Qed.
 Print Assumptions C10_detect_tar_shadowed_refuted.
 
-(* the hypotheses of C10_detect_tar_partial are satisfiable *)
-Example C10_detect_tar_partial_satisfiable :
-  detect_magic (magic T) (takeN 512 (tar_named (s "a.txt"))) = None /\ ustar_at T (tar_named (s "a.txt")) = true.
+(* the last hypothesis of C10_detect_magic is satisfiable for every entry of today's table *)
+Example C10_detect_magic_satisfiable :
+  forallb (fun e => negb (ustar_at T (fst (fst e) ++ repeat 7 300))) (magic T) = true.
+Proof. vm_compute; reflexivity. Qed.
+Print Assumptions C10_detect_magic_satisfiable.
+
+(* the property ids the parser model dispatches on are those of the live module *)
+From S2T Require Import C10.Parse.
+Theorem C10_prop_ids :
+  prop_ids = [P_END; P_HEADER; P_ARCHIVE_PROPERTIES; P_ADDITIONAL_STREAMS; P_MAIN_STREAMS; P_FILES_INFO; P_PACK_INFO;
+              P_UNPACK_INFO; P_SUBSTREAMS; P_SIZE; P_CRC; P_FOLDER; P_CODERS_UNPACK_SIZE; P_NUM_UNPACK_STREAM;
+              P_EMPTY_STREAM; P_EMPTY_FILE; P_NAME; P_WIN_ATTRIBUTES; P_ENCODED_HEADER]
+  /\ magic7 = MAGIC7.
 Proof. split; vm_compute; reflexivity. Qed.
-Print Assumptions C10_detect_tar_partial_satisfiable.
+Print Assumptions C10_prop_ids.
